@@ -250,6 +250,12 @@ func constFields(info *types.Info, files []*ast.File, decl *ast.FuncDecl) {
 						return neverAssigned(sel.X)
 					}
 				}
+				// &v: the address of a local variable is the same wherever it is written
+				if id, ok := ast.Unparen(x.X).(*ast.Ident); ok {
+					if o, isVar := core.ObjOf(info, id).(*types.Var); isVar && !o.IsField() && o.Pkg() != nil && o.Parent() != o.Pkg().Scope() {
+						return true
+					}
+				}
 			}
 			return false
 		}
